@@ -62,6 +62,7 @@ Definition type_matches (pkg : bytes) (t : otype) (ty : string) : bool :=
   | TEnum p n => is_name (full p n)
   | TExt tn _ => bytes_eqb tn (bs ty)
   | TMap _ => false
+  | TNested _ _ => false
   end.
 Definition field_documented (f : string * string * string * N) : bool :=
   match f with (msg, ty, name, num) =>
@@ -92,7 +93,7 @@ Proof. vm_compute; reflexivity. Qed.
 (* the status enum is exactly the documented one *)
 Lemma readme_status_enum :
   map (fun v => (bs (snd (fst v)), snd v)) EntityGen.readme_enum_values
-  = status_values (status_prefix readme_decl) (e_status readme_decl)
+  = entity_status_values readme_decl
   /\ forallb (fun v => bytes_eqb (bs (fst (fst v))) (component_name readme_decl (bs "Status")))
              EntityGen.readme_enum_values = true.
 Proof. split; vm_compute; reflexivity. Qed.
@@ -144,7 +145,7 @@ Definition readme_agrees : Prop :=
   /\ forallb field_documented EntityGen.readme_fields = true
   /\ forallb rpc_documented EntityGen.readme_rpcs = true
   /\ map (fun v => (bs (snd (fst v)), snd v)) EntityGen.readme_enum_values
-     = status_values (status_prefix readme_decl) (e_status readme_decl).
+     = entity_status_values readme_decl.
 Lemma readme_agreement : readme_agrees.
 Proof.
   exact (conj readme_compiles (conj readme_messages_produced (conj readme_fields_produced
